@@ -198,7 +198,7 @@ def run(rep):
         else:
             rep.fail("rerandomised-signatures", stage + "::close", "%s::close shows the stored closing signature without re-randomising it (linkable to the merchant's own blind signature)" % stage, site=b.loc())
     for b, bi, s in who_constructs(prog, CLOSING):
-        root = root_body(prog, b)
+      for root in owners_of(prog, b, stop=lambda r: r.desc.get("qpath", "").endswith("ClosingMessage::new")):
         nmr = root.desc.get("qpath", "")
         if nmr.endswith("ClosingMessage::new") or root.from_expansion:
             rep.ok("rerandomised-signatures", "who-may-construct ClosingMessage <- " + root.desc.get("name", "?"), sample=root.path, nontrivial=False)
